@@ -2,6 +2,81 @@
 from mc.props import qs_explore as X
 from mc.props.c16 import RULE, ASSUME, EXT_OPS, make_cfg, narrow_cfg
 
+import itertools
+import pickle
+
+
+# (wave 11) qdrop only marks a job "forget it once a waiter has collected it": until somebody waits, a marked job is an ordinary
+# job and a restart must keep it.  Exhaustive over short histories on the REAL workq inside the REAL db object, saved and
+# restored the way Main.savedb/loaddb do (pickle protocol 2); reference: a plain dict per job id.
+DROP_OPS = ("add", "drop", "ok", "err", "kill")
+
+
+def drop_events(jids):
+    return [(op, j) for j in jids for op in DROP_OPS] + [("restart", None)]
+
+
+def run_drop_history(hist):
+    """returns None or (sig, message)"""
+    from qs import qserve
+    d = qserve.db()
+    model = {}
+    for i, (op, j) in enumerate(hist):
+        wq = d.workq
+        m = model.get(j)
+        try:
+            if op == "add":
+                wq.push(channel="render", payload={"p": 1}, jobid=j)
+                if m is None or m["error"] == "killed":
+                    model[j] = {"done": False, "result": None, "error": None}
+            elif op == "drop":
+                wq.dropjobs([j])
+            elif op in ("ok", "err"):
+                kw = {"result": {"r": str(j)}} if op == "ok" else {"error": "boom"}
+                if m is None:
+                    try:
+                        wq.finishjob(j, **kw)
+                        return ("drop-hist:finish-unknown", "finishjob of an id that was never added did not raise (step %d)" % i)
+                    except KeyError:
+                        pass
+                else:
+                    wq.finishjob(j, **kw)
+                    if not m["done"]:
+                        m.update(done=True, **kw)
+            elif op == "kill":
+                wq.killjobs([j])
+                if m is not None and not m["done"]:
+                    m.update(done=True, error="killed")
+            elif op == "restart":
+                d = pickle.loads(pickle.dumps(d, 2))
+        except Exception as exc:
+            return ("drop-hist:raises:%s" % type(exc).__name__, "step %d %r raised %r" % (i, (op, j), exc))
+        for jid, mm in model.items():
+            job = d.workq.id2job.get(jid)
+            if job is None:
+                return ("drop-hist:job-gone", "after step %d %r job %r is gone (nobody waited for it); model %r" % (i, (op, j), jid, mm))
+            got = {"done": bool(job.done), "result": job.result, "error": job.error}
+            if got != mm:
+                return ("drop-hist:job-differs", "after step %d %r job %r is %r, reference %r" % (i, (op, j), jid, got, mm))
+            if job.done != job.finish_event.is_set():
+                return ("drop-hist:event", "after step %d %r job %r: done=%r but finish event set=%r" % (i, (op, j), jid, job.done, job.finish_event.is_set()))
+    return None
+
+
+def check_drop_histories(tier):
+    spaces = [(("j1",), 6 if tier == "quick" else 8), (("j1", 7), 4 if tier == "quick" else 5)]
+    n = 0
+    bad = {}
+    for jids, depth in spaces:
+        evs = drop_events(jids)
+        for L in range(1, depth + 1):
+            for hist in itertools.product(evs, repeat=L):
+                n += 1
+                r = run_drop_history(hist)
+                if r and r[0] not in bad:
+                    bad[r[0]] = (list(hist), r[1])   # (shortest first: the first of a signature is a shortest one)
+    return n, bad
+
 
 class C18:
     id = "C18"
@@ -21,6 +96,12 @@ class C18:
         # jobs finished with results that are falsy in Python (0, '', [], {}, false): they are results, not "no result"
         falsy = narrow_cfg(tier, {"add", "pull", "finish", "wait"}, workers=("w1",), finish_kinds=("zero", "emptystr", "emptylist", "emptydict", "false"),
                            maxjobs=2, bound=9 if tier == "quick" else 11, maxrestarts=1)
+        import time as _t
+        t0 = _t.time()
+        ndrop, dropbad = check_drop_histories(tier)
+        extra = {"drop_flag_histories": ndrop, "drop_flag_alphabet": [list(map(str, e)) for e in drop_events(("j1", 7))],
+                 "drop_flag_depths": "1 id: %d, 2 ids: %d" % ((6, 4) if tier == "quick" else (8, 5)), "drop_flag_wall_s": round(_t.time() - t0, 1)}
+        pre = [(sig, {"case": {"drop_history": [[op, j] for op, j in hist]}, "msg": msg, "idx": len(hist)}) for sig, (hist, msg) in sorted(dropbad.items())]
         return X.search_phases(self.id, [("wide", cfg, cap), ("ids-deep", ids, 60 if tier == "quick" else 600),
                                          ("falsy-results", falsy, 60 if tier == "quick" else 300),
                                          ("mixed-ids", mixed, 60 if tier == "quick" else 600),
@@ -28,9 +109,12 @@ class C18:
                                post_restart_only=True,
                                rule=RULE + "; the save/restore step (Main.savedb -> pickle file -> Main.loaddb in a fresh Main, all connections gone) is enabled in every quiescent state and exploration continues after it with the C16/C17 oracles armed; only violations that arise after a restart are reported here",
                                assumptions=ASSUME + ("the server is stopped between event-loop iterations (quiescent), as KeyboardInterrupt in serve_forever does",),
-                               gate=gate)
+                               gate=gate, extra_cov=extra, pre_violations=pre)
 
     def replay(self, record):
+        if "drop_history" in record["case"]:
+            r = run_drop_history([(op, j) for op, j in record["case"]["drop_history"]])
+            return {"violated": bool(r), "sig": r[0] if r else None, "msg": r[1] if r else None, "all_sigs": [r[0]] if r else []}
         return X.replay_history(record, self.families, make_cfg("quick", EXT_OPS, 2)[0], post_restart_only=True)
 
 
